@@ -286,6 +286,21 @@ Definition oracle_gr_all (s s' : sgr) (o : line) (r : list bytes) : list bytes :
           end)
        end
      else []) ++
+    (* ---- C01: the reported parameters are the matcher's and the route's captures, nothing left from elsewhere *)
+    (let mps := if is_g then match first_accepting (gspec s) (mreq_of o 2) with
+                             | Some (Some (_, _, m)) => Some m | Some None => Some [] | None => None end
+                else Some [] in
+     match mps, tokens (nth 7 r []) with
+     | Some m, Some ts =>
+       check (forallb (fun kv => ahas (fst kv) m || mem (fst kv) (capture_names ts)) ps)
+             (match nth 7 r [] with [] => "C01:404-reports-parameters" | _ => "C01:reported-parameters-not-exactly-the-capturing-ones" end)
+     | Some m, None =>
+       match nth 7 r [] with
+       | [] => check (forallb (fun kv => ahas (fst kv) m) ps) "C01:404-reports-parameters"
+       | _ => []
+       end
+     | None, _ => []
+     end) ++
     (* ---- C18: TRACE is answered by the trace handler exactly on routers created with the option *)
     (let traced :=
        if is_g then match List.find (fun x => beqb (gr_name x) rname) (g_routers (grp s)) with
@@ -321,8 +336,12 @@ Definition oracle_gr_all (s s' : sgr) (o : line) (r : list bytes) : list bytes :
      end)
   else if beqb op (bs "poolprobe") then
     check (obs_is r "1") "C16:context-returned-to-the-pool-twice" ++ check (obs_is r "1") "C07:context-returned-to-the-pool-twice"
+  else if beqb op (bs "gremove") || beqb op (bs "guse") || beqb op (bs "ruse") || (beqb op (bs "ghandle") && obs_is r "panic" && beqb (nth 1 r []) (bs "runtime")) then
+    check (negb (obs_is r "panic")) "C13:group-mutation-faulted" ++ check (negb (obs_is r "panic")) "C05:mutation-panics"
   else if beqb op (bs "gnew") || beqb op (bs "gadd") then
-    check (negb (obs_is r "ok" && ahas (arg 1 o) (gspec s))) "C13:duplicate-router-name-accepted"
+    check (negb (obs_is r "ok" && ahas (arg 1 o) (gspec s))) "C13:duplicate-router-name-accepted" ++
+    (* the harness's twin group (same option array, its own recovery function) must still contain panics *)
+    check (negb (mem (bs "twin-group-lost-its-recovery-option") r)) "C16:panic-escaped-despite-recovery"
   else [].
 
 Definition oracle_gr (s s' : sgr) (o : line) (r : list bytes) : list bytes :=
